@@ -1,3 +1,4 @@
+#![allow(dead_code)]
 //! `mc <Cxx> [--tier quick|thorough] [--replay <file>]` — model-checking harness for probminhash.
 //! Every exploration drives the real implementation from /repo (built with --cfg probminhash_verif).
 
